@@ -336,6 +336,37 @@ def _vectorised_coords(flag_attr):
     return f
 
 
+def _coords_by_ranges(tr):
+    from optilint.selftest import sub_in_func
+
+    def edit(src):
+        import ast as _ast
+        tree = _ast.parse(src)
+        for cls in tree.body:
+            if isinstance(cls, _ast.ClassDef) and cls.name == "DofManager":
+                for fn in cls.body:
+                    if isinstance(fn, _ast.FunctionDef) and fn.name == "_make_hessian_coordinates":
+                        lines = src.splitlines(keepends=True)
+                        body = ("        unknownsOf = [self.dofToUnknown[self.ids[eNodes,:][self.isUnknown[eNodes,:]]] for eNodes in conns]\n"
+                                "        sizes = [u.size**2 for u in unknownsOf]\n"
+                                "        ranges = []\n"
+                                "        begin = 0\n"
+                                "        for w in sizes:\n"
+                                "            end = begin + w\n"
+                                "            ranges.append(slice(begin, end))\n"
+                                "            begin = end\n"
+                                "        rowCoords = onp.zeros(sum(sizes), dtype=int)\n"
+                                "        colCoords = rowCoords.copy()\n"
+                                "        for u, r in zip(unknownsOf, ranges):\n"
+                                "            t = onp.tile(u, (u.size, 1))\n"
+                                "            rowCoords[r] = t.ravel()\n"
+                                "            colCoords[r] = t%s.ravel()\n"
+                                "        return rowCoords, colCoords\n" % tr)
+                        return "".join(lines[:fn.body[0].lineno - 1]) + body + "".join(lines[fn.end_lineno:])
+        return None
+    return edit
+
+
 def variants(repo):
     from optilint.selftest import Variant, sub, sub_in_func, alpha_rename, reformat
     F = "optimism/FunctionSpace.py"
@@ -396,6 +427,15 @@ def variants(repo):
         Variant("fill pass skips elements with at most one unknown", F,
                 sub("        for e,eNodes in enumerate(conns):\n            elDofs = self.ids[eNodes,:]\n", "        for e,eNodes in enumerate(conns):\n            if nElUnknowns[e] <= 1:\n                rangeBegin += onp.square(nElUnknowns[e])\n                continue\n            elDofs = self.ids[eNodes,:]\n"),
                 "O6/T6-hessian-coordinates-and-mask"),
+        # iteration hands out views: a store into the loop target clears the block of the array itself
+        Variant("mask cleared through the per-element views", F, sub_in_func("DofManager._make_hessian_bc_mask",
+                "        for e, eNodes in enumerate(conns):\n            eFlag = self.isBc[eNodes,:].ravel()\n            hessian_bc_mask[e,eFlag,:] = False\n            hessian_bc_mask[e,:,eFlag] = False\n",
+                "        for blk, eNodes in zip(hessian_bc_mask, conns):\n            eFlag = self.isBc[eNodes,:].ravel()\n            blk[eFlag,:] = False\n            blk[:,eFlag] = False\n"), None),
+        Variant("mask cleared through the per-element views, wrong flags", F, sub_in_func("DofManager._make_hessian_bc_mask",
+                "        for e, eNodes in enumerate(conns):\n            eFlag = self.isBc[eNodes,:].ravel()\n            hessian_bc_mask[e,eFlag,:] = False\n            hessian_bc_mask[e,:,eFlag] = False\n",
+                "        for blk, eNodes in zip(hessian_bc_mask, conns):\n            eFlag = self.isUnknown[eNodes,:].ravel()\n            blk[eFlag,:] = False\n            blk[:,eFlag] = False\n"), "O6/T6-hessian-coordinates-and-mask"),
+        Variant("coordinates through a list of per-element unknowns and a list of consecutive ranges", F, _coords_by_ranges(".T"), None),
+        Variant("coordinates through a list of consecutive ranges, columns not transposed", F, _coords_by_ranges(""), "O6/T6-hessian-coordinates-and-mask"),
         Variant("fill pass skips elements without unknowns", F,
                 sub("        for e,eNodes in enumerate(conns):\n            elDofs = self.ids[eNodes,:]\n", "        for e,eNodes in enumerate(conns):\n            if nElUnknowns[e] == 0:\n                continue\n            elDofs = self.ids[eNodes,:]\n"),
                 None),
